@@ -93,6 +93,7 @@ func checkC09(c *Ctx) {
 		"K3 no allocation inside a decode loop is sized by the length of a loop-carried accumulator (repeated-option reassembly appends only the chunk just consumed); no accumulator is grown through a capacity-clipped alias of itself",
 		"K4 no encoder invokes ToBytes twice on the same sub-value along a path (re-encoding is linear in the nesting depth, not exponential)",
 		"K7 no function on a recursion cycle of the decode closure hands the same input bytes to that cycle twice along one path (decoding is linear in the nesting depth)",
+		"K9 no decode loop rebuilds a loop-carried error or string from itself through a call (an error chain or message that is re-formatted once per rejected option grows quadratically)",
 		"K8 no decoder on a recursion cycle keeps a copy of the bytes it hands to the recursion (retained size stays linear in the input, not input × depth); K3 also follows calls made inside decode loops: the callee does not reallocate, sized by its current length, the collection it extends")
 	r.NotDecided = append(r.NotDecided, "the numeric statement itself (bytes allocated ≤ k·n + n·depth, size of the decoded value): runtime quantities of the allocator, append growth and string concatenation that no static argument in reach bounds; the clauses above are necessary conditions, not a proof of the bound")
 	e, err := newE4(c, "C09-K1")
@@ -114,6 +115,7 @@ func checkC09(c *Ctx) {
 			nJumps += c09Cursor(c, e, f, hdr, loop)
 			c09Alloc(c, f, hdr, loop)
 			nLoopCalls += c09AllocCallee(c, f, loop)
+			c09Refold(c, f, hdr, loop)
 		}
 		// K2
 		allInstrs(f, func(in ssa.Instruction) {
@@ -1165,4 +1167,70 @@ func reachesFunc(c *Ctx, g, f *ssa.Function, in map[*ssa.Function]bool) bool {
 		reachMemo[g] = m
 	}
 	return m[f]
+}
+
+// c09Refold: K9 — a loop-carried value of type error or string is not rebuilt from itself through a call in the loop
+// (fmt.Errorf("%w; %w", acc, err), errors.Join(acc, err), a helper doing either): every iteration re-renders or
+// re-wraps everything accumulated so far, so n rejected options cost n² bytes. String concatenation (acc + chunk)
+// is judged by the cap rule of K1.
+func c09Refold(c *Ctx, f *ssa.Function, hdr *ssa.BasicBlock, loop map[*ssa.BasicBlock]bool) {
+	r := c.R
+	for _, in := range hdr.Instrs {
+		ph, ok := in.(*ssa.Phi)
+		if !ok {
+			break
+		}
+		isErr := types.Identical(ph.Type(), types.Universe.Lookup("error").Type())
+		bt, isBasic := ph.Type().Underlying().(*types.Basic)
+		if !isErr && !(isBasic && bt.Info()&types.IsString != 0) {
+			continue
+		}
+		var viaCall func(v ssa.Value, d int) *ssa.Call
+		viaCall = func(v ssa.Value, d int) *ssa.Call {
+			if d > 4 {
+				return nil
+			}
+			switch x := v.(type) {
+			case *ssa.Phi:
+				if x == ph {
+					return nil
+				}
+				for _, e := range x.Edges {
+					if cl := viaCall(e, d+1); cl != nil {
+						return cl
+					}
+				}
+			case *ssa.Extract:
+				return viaCall(x.Tuple, d+1)
+			case *ssa.MakeInterface:
+				return viaCall(x.X, d+1)
+			case *ssa.Call:
+				if !loop[x.Block()] {
+					return nil
+				}
+				args := append([]ssa.Value{}, x.Call.Args...)
+				for _, a := range x.Call.Args {
+					args = append(args, varargValues(a)...)
+				}
+				for _, a := range args {
+					if mi, ok := a.(*ssa.MakeInterface); ok {
+						a = mi.X
+					}
+					if a == ssa.Value(ph) {
+						return x
+					}
+				}
+			}
+			return nil
+		}
+		for i, e := range ph.Edges {
+			if !loop[hdr.Preds[i]] {
+				continue
+			}
+			if cl := viaCall(e, 0); cl != nil {
+				r.Violation("C09-K9", shortName(f)+": loop-carried "+ph.Type().String()+" "+ph.Comment+" rebuilt from itself by a call inside the decode loop", c.P.ipos(cl),
+					"each iteration wraps or re-formats everything accumulated so far ("+calleeName(cl.Common())+"): k rejected or repeated items cost on the order of k² bytes of allocation")
+			}
+		}
+	}
 }
